@@ -5,7 +5,7 @@ import subprocess as sp
 from .. import tlc, drive, glue, project
 from ..core import Machinery
 
-STATES = ["clean", " M", "M ", "MM", "A ", " D", "D ", "R ", "??"]
+STATES = ["clean", " M", "M ", "MM", "A ", "AM", " D", "D ", "R ", "RM", "??"]
 OLD, NEW = "1.2.3", "1.2.4"
 GENV = dict(GIT_AUTHOR_NAME="t", GIT_AUTHOR_EMAIL="t@e", GIT_COMMITTER_NAME="t", GIT_COMMITTER_EMAIL="t@e", GIT_CONFIG_GLOBAL="/dev/null", GIT_CONFIG_SYSTEM="/dev/null")
 
@@ -29,9 +29,9 @@ def build(job):
         # the configured path of a renamed pattern file is its NEW name
         proj.write("bumpver.toml", project.bumpver_toml(OLD, "MAJOR.MINOR.PATCH", [(n, ["{version}"]) for n, _s in pattern_files], commit=True))
         for n, pat, s in files:
-            if s in ("A ", "??"):
+            if s in ("A ", "AM", "??"):
                 continue
-            name = "old_" + n if s == "R " else n
+            name = "old_" + n if s in ("R ", "RM") else n
             proj.write(name, ("version %s\n" % OLD if pat else "content\n") + "line two\n")
         git(root, "add", "-A")
         git(root, "commit", "-q", "-m", "init")
@@ -44,16 +44,20 @@ def build(job):
                     git(root, "add", n)
                 if s == "MM":
                     proj.write(n, body + "user edit 1\nuser edit 2\n")
-            elif s == "A ":
+            elif s in ("A ", "AM"):
                 proj.write(n, body); git(root, "add", n)
+                if s == "AM":
+                    proj.write(n, body + "user edit\n")
             elif s == "??":
                 proj.write(n, body)
             elif s == " D":
                 os.remove(p)
             elif s == "D ":
                 git(root, "rm", "-q", n)
-            elif s == "R ":
+            elif s in ("R ", "RM"):
                 git(root, "mv", "old_" + n, n)
+                if s == "RM":
+                    proj.write(n, body + "user edit after rename\n")
         if cfg_state == " M":
             with open(os.path.join(root, "bumpver.toml"), "a") as f:
                 f.write("# user note\n")
@@ -86,7 +90,7 @@ def run(ctx):
     drive.setup(hooks=False)
     res = tlc.run(tlc.module_text("mc/MC_C11.tla"), "INIT Init\nNEXT Next\nINVARIANT NoSweep\nINVARIANT DirtyBlocksUnlessAllowed\nINVARIANT UntrackedOthersInert\nINVARIANT ParseRecovers\nCHECK_DEADLOCK FALSE\n",
                   name="MC_C11", workers=16, timeout=3000)
-    ctx.add_design(res, "MC_C11 four files x nine git states x --allow-dirty (13,122 working trees)")
+    ctx.add_design(res, "MC_C11 four files x eleven git states x --allow-dirty (29,282 working trees)")
     if res.violation:
         ctx.violation(dict(clause="design:" + res.violation), case=dict(state=res.trace[-1:]), check="design")
     ctx.exhaustive = True
@@ -113,7 +117,7 @@ def run(ctx):
             ctx.divergence(f["clause"], e["dbg"])
             continue
         pat_states = sorted(set(s for n, s in e["states"].items() if n in ("pat.txt", "src_p2.py") and s != "clean"))
-        ctx.violation(dict(clause=f["clause"], allow=e["allow"], pattern_file_states=pat_states, leading_blank=any(s.startswith(" ") for s in pat_states), rename=("R " in pat_states)),
+        ctx.violation(dict(clause=f["clause"], allow=e["allow"], pattern_file_states=pat_states, leading_blank=any(s.startswith(" ") for s in pat_states), rename=("R " in pat_states or "RM" in pat_states)),
                       case=dict(what=e["dbg"], exc=e["exc"][:200]))
     ctx.count("repositories", len(events))
     ctx.count("blocked_runs", sum(1 for e in events if e["exit"] != 0))
@@ -121,7 +125,7 @@ def run(ctx):
     ctx.evaluations = len(events)
     for e in events:
         ctx.nontriv(e["dbg"])
-    ctx.rule = ("real git repositories: the 9 x 2 x 2 single-file matrix (state x pattern/unrelated x --allow-dirty) and seeded multi-file working trees (2..5 files, config file "
+    ctx.rule = ("real git repositories: the 11 x 2 x 2 single-file matrix (state x pattern/unrelated x --allow-dirty) and seeded multi-file working trees (2..5 files, config file "
                 "sometimes modified, a file name that looks like a status line); status text is real git's; the bump commit's content is compared with the previous commit's; "
                 "non-trivial = distinct working trees")
     for e in events[2:5]:
